@@ -185,7 +185,7 @@ def struct_coq(spec):
                        for stt in s.scoped_terms) for s in spec.structure)
 
 
-def run_build(frame: Frame, terms, efr, na, cd, output="pandas"):
+def run_build(frame: Frame, terms, efr, na, cd, output="pandas", route=None):
     """Run the implementation; returns (expect literal, kind, detail dict)."""
     from formulaic import model_matrix
     from formulaic.errors import FactorEvaluationError
@@ -193,8 +193,44 @@ def run_build(frame: Frame, terms, efr, na, cd, output="pandas"):
     df = frame.to_pandas()
     f = formula_of(terms)
     dr = set(cd)
+    # the same request is sent through one of the equivalent entry points (chosen deterministically from the request): the public
+    # function, a Formula object, a fresh ModelSpec, the materializer classes (pandas; narwhals over pandas or Arrow data), or the
+    # spec fitted by a first build (as is, or pickled) re-used on the same data.  All must give the result the model computes.
+    import pickle
+    import random as _random
+    r_ = _random.Random(repr((f, frame.describe(), efr, na, cd, output)))
+    has_null = any(v is None for col in list(frame.num.values()) + list(frame.cat.values()) for v in col)
+    routes = ["sugar", "sugar", "formula", "modelspec", "materializer", "narwhals-pandas", "fitted-spec", "pickled-spec"]
+    if not (has_null and na == "ignore") and frame.cat_dtype != "str":
+        routes.append("narwhals-arrow")
+    route = r_.choice(routes) if route is None else route
+    kwargs = dict(ensure_full_rank=efr, na_action=na, output=output)
+
+    def call():
+        from formulaic import Formula, ModelSpec
+        if route == "formula":
+            return Formula(f).get_model_matrix(df, drop_rows=dr, **kwargs)
+        if route == "modelspec":
+            return ModelSpec(formula=Formula(f), **kwargs).get_model_matrix(df, drop_rows=dr)
+        if route == "materializer":
+            from formulaic.materializers import PandasMaterializer
+            return PandasMaterializer(df).get_model_matrix(f, drop_rows=dr, **kwargs)
+        if route == "narwhals-pandas":
+            from formulaic.materializers import NarwhalsMaterializer
+            return NarwhalsMaterializer(df).get_model_matrix(f, drop_rows=dr, **kwargs)
+        if route == "narwhals-arrow":
+            import pyarrow as pa
+            from formulaic.materializers import NarwhalsMaterializer
+            return NarwhalsMaterializer(pa.Table.from_pandas(df, preserve_index=False)).get_model_matrix(f, drop_rows=dr, **kwargs)
+        if route in ("fitted-spec", "pickled-spec"):
+            first = model_matrix(f, df, drop_rows=set(cd), **kwargs)
+            spec = first.model_spec
+            if route == "pickled-spec":
+                spec = pickle.loads(pickle.dumps(spec))
+            return spec.get_model_matrix(df, drop_rows=dr)
+        return model_matrix(f, df, drop_rows=dr, **kwargs)
     try:
-        mm = model_matrix(f, df, ensure_full_rank=efr, na_action=na, drop_rows=dr, output=output)
+        mm = call()
     except FactorEvaluationError as e:
         return "XErr 1", "eval", {"exception": e}
     except ValueError as e:
@@ -211,7 +247,7 @@ def run_build(frame: Frame, terms, efr, na, cd, output="pandas"):
     exp = "XOk %s %s %s %s" % (clist(cstr(c) for c in (pnames if pnames is not None else names)),
                                clist(clist(qlit(v) for v in col) for col in cols),
                                clist(str(int(i)) + "%nat" for i in sorted(dr)), struct_coq(mm.model_spec))
-    return exp, "ok", {"mm": mm, "names": names, "pnames": pnames, "cols": cols, "drop": sorted(dr), "nrows": nrows, "df": df}
+    return exp, "ok", {"mm": mm, "names": names, "pnames": pnames, "cols": cols, "drop": sorted(dr), "nrows": nrows, "df": df, "route": route}
 
 
 def case_literal(frame, terms, efr, na, cd, exp):
